@@ -1,7 +1,6 @@
-import UH.Model.Text
-import UH.Model.Number
-import UH.Model.Parse
-import UH.Model.Norm
+import UH.Model.Main
+import UH.Properties.Tables
 import UH.Properties.C01
+import UH.Properties.C02
 import UH.Properties.C08
 import UH.Properties.C09
